@@ -38,6 +38,14 @@ CLAIMED = {
          "spec/SelfTest.tla models the KAT sequence, the START/CORRUPT/PASS|FAIL call-back protocol and the gate (pass bit and error code = conjunction of all results); TLC checks FailExactlyFaulted / GateIsConjunction / AnnouncesAll and termination for all fault sets of an abstract list; every recorded run of the real self-test (fault-free, every single entry, pairs, random subsets, 7 variants, explicit and auto init) must produce exactly the stream, bits and error code the specification yields, and the learned list must cover the documented algorithms.",
          "corruption can only be injected where the library makes the CORRUPT call-back",
          "TLA+ model checking + fault enumeration validated against the spec", "5 C20"),
+ "C10": ("model_checking",
+         "spec/Sgl.tla transcribes the streaming update logic of the ChaCha20-Poly1305 and GCM/GMAC contexts; TLC proves over all segmentations of bounded messages that the context is a function of the bytes consumed, that the authenticator is fed positions 0..L-1 exactly once in order and that each output byte uses the right keystream byte. Real sessions (all 2/3-segment partitions of short messages, random partitions up to 8 KiB/40 segments, direct calls, INIT/UPDATE/COMPLETE jobs, ALL jobs, both directions, all key sizes, all variants) are validated call by call against the model (public context fields) and must end with output and tag equal to the one-shot job.",
+         "exhaustive part bounded to 140/70-byte messages; context-field mismatches without output divergence are reported as model drift",
+         "TLA+ model checking (TLC) + per-call trace validation of public context structs", "5 C10"),
+ "C12": ("model_checking",
+         "spec/JobRules.tla is the constraint catalogue (per suite: field, value class, error code); TLC exports it and every element becomes one implementation test on every variant through the single-job and burst API (plus burst-call misuse: stale suite ids, NULL entry, out-of-order entry); spec/Trace_JobRules.tla requires accepted baseline, INVALID_ARGS with exactly the catalogue's code, untouched buffers, unchanged queue, unaffected follow-up job and full coverage of the catalogue. Suite-level acceptance over the full product is shared with C06's walk.",
+         "single violations only; direct-API argument rules not yet in the catalogue",
+         "TLA+ catalogue enumeration + one implementation test per model case", "5 C12"),
 }
 
 NA = {
